@@ -71,6 +71,9 @@ def md5_gate_rule(ctx, rule):
                             z[0] == "call" and z[1] == BW + "::check_md5" and "content_md5" in show(sl.expand(z), 600) for z in walk(sl.expand(a[1])))):
                         return True
                 return False
+            # (edges that contradict what an earlier test of the same field established - `let Some(w) = self.block_writer.as_mut() else
+            # { return }` ... `match (.., self.block_writer.as_ref()) { (.., None) => ..` - are not paths: Flow.prune_contradicted)
+            flow.prune_contradicted()
             md5, _w = flow.must_pass(0, [s.bb], md5_gate)
         key = "write_blocks -> complete"
         if done and md5:
@@ -231,6 +234,7 @@ def byte_accounting(ctx, rule):
     if not inner:
         raise model.AnchorMissing("BlockWriter::write does not call write_pkt_cenc_null / decode_write_pkt")
     handed = set()
+    cut_ends = set()     # expanded texts of the lengths the handed data was cut to
     for s in inner:
         # write_pkt_cenc_null(&mut self, data, ..) / decode_write_pkt(&mut self, data, ..) ; ObjectWriter::write(&self, sbn, data, now)
         arg = strip_ref(s.expr[2][2 if norm_path(s.term.callee()["path"]) == "receiver::writer::ObjectWriter::write" else 1])
@@ -250,7 +254,14 @@ def byte_accounting(ctx, rule):
                 if show(z) == "self.bytes_left":
                     return True
                 return z[0] == "call" and re.search(r"(Ord|cmp)::min$", z[1]) is not None and any(show(strip_ref(a_)) == "self.bytes_left" for a_ in z[2])
-            cut = any(strip_ref(c[2][1])[0] == "aggr" and "RangeTo" in strip_ref(c[2][1])[1] and at_most_left(strip_ref(c[2][1])[3][0]) for c in idx)
+            cut = False
+            for c in idx:
+                rg_ = strip_ref(c[2][1])
+                if rg_[0] == "aggr" and "RangeTo" in rg_[1]:
+                    end_ = sl.expand(rg_[3][0])      # the bound may have been computed first: `let n = min(self.bytes_left, data.len()); &data[..n]`
+                    if at_most_left(rg_[3][0]) or at_most_left(end_):
+                        cut = True
+                        cut_ends.add(show(strip_ref(end_), 300))
             if cut:
                 continue
             # the whole block: only where it is known to be shorter than what is left
@@ -276,6 +287,8 @@ def byte_accounting(ctx, rule):
             for sub in (strip_ref(v[3]), strip_ref(sl.expand(v[3], stop=handed))):
                 if sub[0] == "call" and sub[1].endswith("::len") and strip_ref(sub[2][0])[0] == "var" and strip_ref(sub[2][0])[1] in handed:
                     return None
+            if show(strip_ref(sl.expand(v[3])), 300) in cut_ends:
+                return None      # decreases by the very length the data was cut to
             return "bytes_left decreases by %s, not by the length of the data handed to the writer" % show(v[3], 60)
         return "bytes_left assigned %s" % show(v, 60)
 
@@ -309,7 +322,9 @@ def byte_accounting(ctx, rule):
         t_ = blk.term
         if t_.k == "switch":
             for k in range(len(t_.targets) + 1):
-                if any(a[0] == "true" and t and a[1][0] == "call" and a[1][1].endswith("BlockWriter::is_completed") for (a, t) in wf.edge_facts(("e", blk.i, k))):
+                # `if self.is_completed()` or the accessor's body written out, `if self.bytes_left == 0`
+                if any((a[0] == "true" and t and a[1][0] == "call" and a[1][1].endswith("BlockWriter::is_completed")) or
+                       (a[0] == "eq" and t and {show(a[1]), show(a[2])} == {"self.bytes_left", "0"}) for (a, t) in wf.edge_facts_x(("e", blk.i, k))):
                     starts.append(t_.targets[k][1] if k < len(t_.targets) else t_.otherwise)
     key = "BlockWriter::write finalises the MD5 when the object is complete"
     if not starts or not md5_assign:
